@@ -1,3 +1,980 @@
 (* C11Proofs.v — lemmas for C11 (crash / fault safety of the lifecycle programs). *)
-From SV Require Import Base Json MD5 Canon FS Proc Crash CorrC11.
+From SV Require Import Base Json MD5 Canon FS Proc Crash WsNames CorrC11 C01Proofs.
 Import ListNotations.
+
+(* ------------------------------------------------------------------ small facts *)
+Lemma path_eq_dec : forall a b : path, {a = b} + {a <> b}.
+Proof. intros a b. apply list_eq_dec. apply str_eq_dec. Qed.
+
+Lemma parent_len2 : forall p : path, length p = 2%nat -> exists x, parent p = [x].
+Proof. intros [|a [|b [|c r]]] H; simpl in H; try discriminate. exists a. reflexivity. Qed.
+
+Lemma json_same_refl : forall v, json_same v v = true.
+Proof. intro v. unfold json_same. apply json_eqb_eq. reflexivity. Qed.
+
+Lemma bytes_eqb_refl : forall l : list N, list_eqb N.eqb l l = true.
+Proof. intro l. apply (proj2 (list_eqb_eq N N.eqb N.eqb_eq l l)). reflexivity. Qed.
+
+Lemma node_same_refl : forall n, node_same n n = true.
+Proof. intros [[c|]|]; simpl; auto. apply bytes_eqb_refl. Qed.
+
+Lemma get_In_nodup : forall f p n, NoDup (map fst f) -> In (p, n) f -> p <> [] -> get f p = Some n.
+Proof.
+  intros f p n Hnd Hin Hp. destruct p as [|x p]; [contradiction|]. rewrite get_cons_path.
+  induction f as [|[q m] f IH]; simpl in *; [contradiction|].
+  inversion Hnd as [|? ? Hnotin Hnd']; subst.
+  destruct Hin as [E|Hin].
+  - inversion E; subst. rewrite path_eqb_refl. reflexivity.
+  - destruct (path_eqb (x :: p) q) eqn:E.
+    + apply path_eqb_eq in E. subst q. exfalso. apply Hnotin. apply (in_map fst) in Hin. exact Hin.
+    + apply IH; auto.
+Qed.
+
+Lemma children_get : forall f p n, In n (children f p) <-> get f (p ++ [n]) <> None.
+Proof.
+  intros f p n. rewrite In_children, In_keys_lookup, get_app_cons. split.
+  - intros [m H]. congruence.
+  - intro H. destruct (lookup (p ++ [n]) f); [eauto|congruence].
+Qed.
+
+Lemma job_dirs_In : forall f ws i,
+  In i (job_dirs f ws) <-> get f ws = Some Dir /\ get f (ws ++ [i]) <> None /\ id_match i = true.
+Proof.
+  intros f ws i. unfold job_dirs, listdir. destruct (get f ws) as [[c|]|]; simpl.
+  - split; [contradiction|]. intros [H _]; discriminate.
+  - rewrite filter_In, children_get. split; [intros [H1 H2]; auto|intros [_ [H1 H2]]; auto].
+  - split; [contradiction|]. intros [H _]; discriminate.
+Qed.
+
+Lemma validates_sp_value : forall frepr f ws i, validates frepr f ws i = true ->
+  exists v, sp_value f ws i = Some v /\ calc_id frepr v = i.
+Proof.
+  intros frepr f ws i H. unfold validates in H. unfold sp_value.
+  destruct (get f (ws ++ [i; SPF])) as [[c|]|]; try discriminate.
+  destruct (c_json c) as [v|]; try discriminate. exists v. split; auto. apply str_eqb_eq. exact H.
+Qed.
+
+Lemma under_len : forall (a b : path), under a b = true -> (length a <= length b)%nat.
+Proof. intros a b H. apply under_spec in H. destruct H as [r ->]. rewrite app_length. lia. Qed.
+
+(* a directory one level below a workspace that contains <ws>/<i>/<name> is <ws>/<i> *)
+Lemma under_job_file : forall (ws ws' : path) i j n,
+  length ws = length ws' -> under (ws' ++ [j]) (ws ++ [i; n]) = true -> ws' ++ [j] = ws ++ [i].
+Proof.
+  intros ws ws' i j n Hlen H. apply under_spec in H. destruct H as [r H].
+  assert (Hl : length (ws ++ [i; n]) = length ((ws' ++ [j]) ++ r)) by (rewrite H; reflexivity).
+  rewrite !app_length in Hl. simpl in Hl.
+  destruct r as [|x [|y r]]; simpl in Hl; try lia.
+  replace (ws ++ [i; n]) with ((ws ++ [i]) ++ [n]) in H by (rewrite <- app_assoc; reflexivity).
+  apply app_inj_tail in H. destruct H as [H _]. symmetry. exact H.
+Qed.
+
+(* ------------------------------------------------------------------ from get-level facts to CInv *)
+Section INTRO.
+  Variable frepr : fl -> str.
+  Variable o : cop.
+  Variable wss : list path.
+  Variable f0 f : fs.
+  Hypothesis HW : WInv frepr wss f0.
+  Let ds := affected frepr o f0.
+  (* every affected directory is a job directory of one of the workspaces *)
+  Hypothesis Hform : forall d, In d ds -> exists ws j, In ws wss /\ d = ws ++ [j].
+  Hypothesis H1 : forall p, under_any ds p = false -> get f p = get f0 p.
+  Hypothesis H2 : is_removal o = true \/
+    forall r c, payload_rel r = true -> get f0 (src_dir frepr o ++ r) = Some (File c) ->
+      length (filter (fun d => holds_file f d r c)
+                (match o with KClone _ _ _ => [src_dir frepr o] | _ => ds end)) = 1%nat.
+  Hypothesis H3 : forall d, In d ds -> get f d = None \/ get f d = Some Dir.
+  Hypothesis H4 : forall ws i, In ws wss -> In (ws ++ [i]) ds -> validates frepr f ws i = true ->
+    exists v, sp_value f ws i = Some v /\ existsb (json_same v) (history frepr o f0) = true.
+
+  Lemma ws_not_affected : forall ws, In ws wss -> under_any ds ws = false.
+  Proof.
+    intros ws Hws. destruct (under_any ds ws) eqn:E; auto. unfold under_any in E.
+    apply existsb_exists in E. destruct E as [d [Hd Hu]]. destruct (Hform d Hd) as [ws' [j [Hws' ->]]].
+    apply under_len in Hu. rewrite app_length in Hu. simpl in Hu.
+    destruct HW as [_ [_ [_ [Hl _]]]]. rewrite (Hl ws ws' Hws Hws') in Hu. lia.
+  Qed.
+
+  Lemma affected_job : forall ws i n, In ws wss -> under_any ds (ws ++ [i; n]) = true -> In (ws ++ [i]) ds.
+  Proof.
+    intros ws i n Hws E. unfold under_any in E. apply existsb_exists in E. destruct E as [d [Hd Hu]].
+    destruct (Hform d Hd) as [ws' [j [Hws' ->]]].
+    destruct HW as [_ [_ [_ [Hl _]]]].
+    rewrite (under_job_file ws ws' i j n (Hl ws ws' Hws Hws') Hu) in Hd. exact Hd.
+  Qed.
+
+  Lemma affected_dir : forall ws i, In ws wss -> under_any ds (ws ++ [i]) = true -> In (ws ++ [i]) ds.
+  Proof.
+    intros ws i Hws E. unfold under_any in E. apply existsb_exists in E. destruct E as [d [Hd Hu]].
+    destruct (Hform d Hd) as [ws' [j [Hws' ->]]].
+    destruct HW as [_ [_ [_ [Hl _]]]].
+    apply under_spec in Hu. destruct Hu as [r Hu].
+    assert (Hlen : length (ws ++ [i]) = length ((ws' ++ [j]) ++ r)) by (rewrite Hu; reflexivity).
+    rewrite !app_length in Hlen. simpl in Hlen. rewrite (Hl ws ws' Hws Hws') in Hlen.
+    destruct r; simpl in Hlen; [|lia]. rewrite app_nil_r in Hu. rewrite Hu. exact Hd.
+  Qed.
+
+  Lemma listed_is_dir : forall ws i, In ws wss -> In i (job_dirs f ws) ->
+    validates frepr f ws i = true \/ isdir f (ws ++ [i]) = true.
+  Proof.
+    intros ws i Hws Hi. apply job_dirs_In in Hi. destruct Hi as [Hd [Hex Hid]].
+    destruct (under_any ds (ws ++ [i])) eqn:E.
+    - right. destruct (H3 _ (affected_dir ws i Hws E)) as [Hn|Hdir]; [congruence|]. unfold isdir. rewrite Hdir. reflexivity.
+    - left. rewrite (H1 _ E) in Hex.
+      destruct HW as [_ [_ [_ [_ Hv]]]]. destruct (Hv ws Hws) as [Hwd Hval].
+      assert (Hin0 : In i (job_dirs f0 ws)) by (apply job_dirs_In; auto).
+      specialize (Hval i Hin0). unfold validates in *.
+      destruct (under_any ds (ws ++ [i; SPF])) eqn:E2.
+      + pose proof (affected_job ws i SPF Hws E2) as Hin.
+        assert (under_any ds (ws ++ [i]) = true).
+        { unfold under_any. apply existsb_exists. exists (ws ++ [i]). split; auto. apply under_refl. }
+        congruence.
+      + rewrite (H1 _ E2). exact Hval.
+  Qed.
+
+  Theorem cinv_intro : CInv frepr o wss f0 f.
+  Proof.
+    unfold CInv, cinv_b. fold ds. rewrite !andb_true_iff. repeat split.
+    - (* others *)
+      unfold others_same. apply andb_true_iff. split; apply forallb_forall; intros e _;
+        destruct (deep (fst e)); simpl; auto; destruct (under_any ds (fst e)) eqn:E; simpl; auto;
+        rewrite (H1 _ E); apply node_same_refl.
+    - (* data *)
+      destruct H2 as [Hr|Hd]; [rewrite Hr; reflexivity|]. apply orb_true_iff. right.
+      unfold data_once. apply forallb_forall. intros [p n] Hin. simpl.
+      destruct (strip (src_dir frepr o) p) as [r|] eqn:Es; auto. destruct n as [c|]; auto.
+      destruct (payload_rel r) eqn:Ep; simpl; auto.
+      apply strip_spec in Es. subst p.
+      destruct HW as [Hnd [Hnil _]].
+      assert (Hne : src_dir frepr o ++ r <> []).
+      { intro E. apply Hnil. rewrite <- E. apply (in_map fst) in Hin. exact Hin. }
+      pose proof (get_In_nodup f0 _ _ Hnd Hin Hne) as Hg.
+      apply Nat.eqb_eq. fold ds. apply (Hd r c Ep Hg).
+    - (* listed *)
+      apply forallb_forall. intros w Hw. unfold observe in Hw. apply in_map_iff in Hw.
+      destruct Hw as [ws [<- Hws]]. simpl. unfold listed_ok, check_report.
+      assert (Hall : forallb (fun i => validates frepr f ws i || isdir f (ws ++ [i])) (job_dirs f ws) = true).
+      { apply forallb_forall. intros i Hi. apply orb_true_iff. apply listed_is_dir; auto. }
+      rewrite Hall. apply forallb_forall. intros i Hi.
+      destruct (validates frepr f ws i) eqn:Ev; simpl; auto.
+      apply str_mem_In. apply filter_In. split; auto. rewrite Ev. reflexivity.
+    - (* forgery *)
+      apply forallb_forall. intros w Hw. unfold observe in Hw. apply in_map_iff in Hw.
+      destruct Hw as [ws [<- Hws]]. simpl. unfold no_forgery. apply forallb_forall. intros i Hi.
+      destruct (validates frepr f ws i) eqn:Ev; simpl; auto. fold ds.
+      destruct (under_any ds (ws ++ [i])) eqn:E.
+      + destruct (H4 ws i Hws (affected_dir ws i Hws E) Ev) as [v [Hv Hh]]. rewrite Hv. exact Hh.
+      + destruct (validates_sp_value _ _ _ _ Ev) as [v [Hv _]]. rewrite Hv.
+        assert (E2 : under_any ds (ws ++ [i; SPF]) = false).
+        { destruct (under_any ds (ws ++ [i; SPF])) eqn:E2; auto.
+          pose proof (affected_job ws i SPF Hws E2) as Hin.
+          assert (under_any ds (ws ++ [i]) = true).
+          { unfold under_any. apply existsb_exists. exists (ws ++ [i]). split; auto. apply under_refl. }
+          congruence. }
+        unfold sp_value in *. rewrite <- (H1 _ E2). rewrite Hv. apply json_same_refl.
+  Qed.
+End INTRO.
+
+(* ------------------------------------------------------------------ crash states, concretely *)
+Lemma crashed_ret_inv : forall A (a : A) f g, crashed (Ret a) f g -> g = f.
+Proof. intros A a f g H. inversion H; reflexivity. Qed.
+
+Lemma crashed_raise_inv : forall A e f g, crashed (@Raise A e) f g -> g = f.
+Proof. intros A e f g H. inversion H; reflexivity. Qed.
+
+Definition is_write (c : call) : bool := match c with CWrite _ _ => true | _ => false end.
+
+Lemma crashed_do_inv : forall A c (k : fres val -> prog A) f g,
+  crashed (Do c k) f g -> is_write c = false ->
+  g = f \/ crashed (k (snd (exec_res f c))) (fst (exec_res f c)) g.
+Proof.
+  intros A c k f g H Hw. inversion H as [| |c0 k0 f1 f' r g0 He Hc]; subst.
+  - left. reflexivity.
+  - discriminate.
+  - right. rewrite He. exact Hc.
+Qed.
+
+Lemma crashed_write_inv : forall A q d (k : fres val -> prog A) f g,
+  crashed (Do (CWrite q d) k) f g ->
+  g = f \/ (exists n f', (0 < n < length (c_bytes d))%nat /\ write_open f q (torn_content d n) = FOk f' /\ g = f')
+  \/ crashed (k (snd (exec_res f (CWrite q d)))) (fst (exec_res f (CWrite q d))) g.
+Proof.
+  intros A q d k f g H. inversion H as [| |c0 k0 f1 f' r g0 He Hc]; subst.
+  - left. reflexivity.
+  - right. left. eauto.
+  - right. right. rewrite He. exact Hc.
+Qed.
+
+Lemma run_fault_do : forall A plan i c (k : fres val -> prog A) f,
+  run_fault plan i (Do c k) f =
+  match plan i with
+  | Some e => run_fault plan (S i) (k (FErr e)) f
+  | None => let '(f', r) := exec_res f c in run_fault plan (S i) (k r) f'
+  end.
+Proof. reflexivity. Qed.
+
+Lemma exec_res_stat : forall f p, exec_res f (CStat p) = (f, FOk (RKind (kind_of (get f p)))).
+Proof. reflexivity. Qed.
+
+Lemma exec_res_read : forall f p, fst (exec_res f (CRead p)) = f.
+Proof. intros f p. unfold exec_res. simpl. destruct (get f p) as [[d|]|]; reflexivity. Qed.
+
+Lemma sp_value_dir : forall f ws i, sp_value f ws i =
+  match get f ((ws ++ [i]) ++ [SPF]) with Some (File c) => c_json c | _ => None end.
+Proof. intros. unfold sp_value. rewrite <- app_assoc. reflexivity. Qed.
+
+Lemma validates_dir : forall frepr f ws i, validates frepr f ws i =
+  match get f ((ws ++ [i]) ++ [SPF]) with
+  | Some (File c) => match c_json c with Some v => str_eqb (calc_id frepr v) i | None => false end
+  | _ => false
+  end.
+Proof. intros. unfold validates. rewrite <- app_assoc. reflexivity. Qed.
+
+(* a listed job of a valid workspace: a directory with a validating state point file *)
+Lemma winv_job : forall frepr wss f0 ws i, WInv frepr wss f0 -> In ws wss -> In i (job_dirs f0 ws) ->
+  get f0 (ws ++ [i]) = Some Dir /\
+  exists c v, get f0 ((ws ++ [i]) ++ [SPF]) = Some (File c) /\ c_json c = Some v /\ calc_id frepr v = i.
+Proof.
+  intros frepr wss f0 ws i HW Hws Hi. destruct HW as [_ [_ [Hcl [_ Hv]]]]. destruct (Hv ws Hws) as [_ Hval].
+  specialize (Hval i Hi). rewrite validates_dir in Hval.
+  destruct (get f0 ((ws ++ [i]) ++ [SPF])) as [[c|]|] eqn:G; try discriminate.
+  destruct (c_json c) as [v|] eqn:J; try discriminate. apply str_eqb_eq in Hval. split; [|eauto].
+  assert (Hne : get f0 ((ws ++ [i]) ++ [SPF]) <> None) by congruence.
+  apply Hcl in Hne. rewrite parent_snoc in Hne. exact Hne.
+Qed.
+
+Lemma holds_file_get : forall f d r c, get f (d ++ r) = Some (File c) -> holds_file f d r c = true.
+Proof. intros f d r c H. unfold holds_file. rewrite H. apply bytes_eqb_refl. Qed.
+
+Lemma holds_file_none : forall f d r c, get f (d ++ r) = None -> holds_file f d r c = false.
+Proof. intros f d r c H. unfold holds_file. rewrite H. reflexivity. Qed.
+
+Lemma payload_rel_nonempty : forall r, payload_rel r = true -> exists x r', r = x :: r'.
+Proof. intros [|x r'] H; [discriminate|eauto]. Qed.
+
+Lemma under_any_false_cons : forall d ds p, under_any (d :: ds) p = false -> under d p = false /\ under_any ds p = false.
+Proof. intros d ds p H. unfold under_any in *. simpl in H. apply orb_false_iff in H. exact H. Qed.
+
+(* ------------------------------------------------------------------ Job.move *)
+Section MOVE.
+  Variable frepr : fl -> str.
+  Variable wss : list path.
+  Variable f0 : fs.
+  Variables ws dws : path.
+  Variable i : str.
+  Hypothesis HW : WInv frepr wss f0.
+  Hypothesis Hws : In ws wss.
+  Hypothesis Hdws : In dws wss.
+  Hypothesis Hi : In i (job_dirs f0 ws).
+  Let o := KMove ws i dws.
+  Let s := ws ++ [i].
+  Let d := dws ++ [i].
+
+  Lemma move_src : get f0 s = Some Dir /\
+    exists c v, get f0 (s ++ [SPF]) = Some (File c) /\ c_json c = Some v /\ calc_id frepr v = i.
+  Proof. apply (winv_job frepr wss); auto. Qed.
+
+  Lemma move_spv : exists v, sp_value f0 ws i = Some v /\ calc_id frepr v = i.
+  Proof.
+    destruct move_src as [_ [c [v [G [J E]]]]]. exists v. split; auto. rewrite sp_value_dir. fold s. rewrite G. exact J.
+  Qed.
+
+  Lemma move_aff : affected frepr o f0 = if path_eqb s d || has_children f0 d || isfile f0 d then [s] else [s; d].
+  Proof.
+    unfold affected, o, dst_dir, src_dir. destruct move_spv as [v [Hv Hid]]. rewrite Hv, Hid. reflexivity.
+  Qed.
+
+  Lemma move_hist : exists v, history frepr o f0 = [v] /\ sp_value f0 ws i = Some v.
+  Proof. destruct move_spv as [v [Hv _]]. exists v. unfold history, o. rewrite Hv. auto. Qed.
+
+  Lemma move_form : forall x, In x (affected frepr o f0) -> exists w j, In w wss /\ x = w ++ [j].
+  Proof.
+    intros x Hx. rewrite move_aff in Hx.
+    destruct (path_eqb s d || has_children f0 d || isfile f0 d); simpl in Hx.
+    - destruct Hx as [<-|[]]. exists ws, i. auto.
+    - destruct Hx as [<-|[<-|[]]]; [exists ws, i|exists dws, i]; auto.
+  Qed.
+
+  (* the destination, when it counts as affected, is empty in the pre-state *)
+  Lemma move_dst_free : In d (affected frepr o f0) -> d <> s ->
+    has_children f0 d = false /\ (get f0 d = None \/ get f0 d = Some Dir).
+  Proof.
+    intros Hin Hne. rewrite move_aff in Hin.
+    destruct (path_eqb s d) eqn:E1; [apply path_eqb_eq in E1; congruence|].
+    destruct (has_children f0 d) eqn:E2; simpl in Hin.
+    - destruct Hin as [E|[]]. congruence.
+    - destruct (isfile f0 d) eqn:E3; simpl in Hin.
+      + destruct Hin as [E|[]]. congruence.
+      + split; auto. unfold isfile in E3. destruct (get f0 d) as [[c|]|]; auto. discriminate.
+  Qed.
+
+  Lemma cinv_move_pre : CInv frepr o wss f0 f0.
+  Proof.
+    destruct move_src as [Hs [c [v [G [J E]]]]].
+    apply cinv_intro; auto.
+    - apply move_form.
+    - right. intros r c0 Hp Hg. unfold o, src_dir in Hg. fold s in Hg.
+      destruct (payload_rel_nonempty r Hp) as [x [r' ->]].
+      rewrite move_aff. destruct (path_eqb s d || has_children f0 d || isfile f0 d) eqn:Eb; simpl.
+      + rewrite (holds_file_get _ _ _ _ Hg). reflexivity.
+      + rewrite (holds_file_get _ _ _ _ Hg).
+        apply orb_false_iff in Eb. destruct Eb as [Eb _]. apply orb_false_iff in Eb. destruct Eb as [_ Hc].
+        rewrite holds_file_none; [reflexivity|]. rewrite get_app_cons. apply has_children_false. exact Hc.
+    - intros x Hx. destruct (path_eq_dec x s) as [->|Hne]; [right; exact Hs|].
+      assert (x = d).
+      { rewrite move_aff in Hx. destruct (path_eqb s d || has_children f0 d || isfile f0 d); simpl in Hx; intuition congruence. }
+      subst x. destruct (move_dst_free Hx Hne) as [_ H]. exact H.
+    - intros w j Hw Hin Hval. destruct (path_eq_dec (w ++ [j]) s) as [Es|Hne].
+      + destruct move_hist as [v0 [Hh Hv0]]. rewrite Hh.
+        destruct (validates_sp_value _ _ _ _ Hval) as [v1 [Hv1 _]]. exists v1. split; auto.
+        rewrite sp_value_dir, Es in Hv1. rewrite sp_value_dir in Hv0. fold s in Hv0. rewrite Hv1 in Hv0.
+        injection Hv0 as <-. simpl. rewrite json_same_refl. reflexivity.
+      + assert (Ed : w ++ [j] = d).
+        { rewrite move_aff in Hin. destruct (path_eqb s d || has_children f0 d || isfile f0 d); simpl in Hin; intuition congruence. }
+        rewrite Ed in Hin, Hne. destruct (move_dst_free Hin Hne) as [Hc _].
+        rewrite validates_dir, Ed in Hval. rewrite get_app_cons, (has_children_false f0 d SPF [] Hc) in Hval. discriminate.
+  Qed.
+
+  Lemma cinv_move_post : forall f1, s <> d -> rename f0 s d = FOk f1 -> CInv frepr o wss f0 f1.
+  Proof.
+    intros f1 Hne Hr. destruct move_src as [Hs [c [v [G [J E]]]]].
+    destruct (rename_dir_ok_dest f0 s d f1 Hs Hne Hr) as [Hd Hc].
+    assert (Haff : affected frepr o f0 = [s; d]).
+    { rewrite move_aff. apply path_eqb_neq in Hne. rewrite Hne, Hc. simpl.
+      unfold isfile. destruct Hd as [-> | ->]; reflexivity. }
+    apply cinv_intro; auto.
+    - apply move_form.
+    - rewrite Haff. intros p Hp. apply under_any_false_cons in Hp. destruct Hp as [Hps Hp].
+      apply under_any_false_cons in Hp. destruct Hp as [Hpd _].
+      apply (rename_dir_frame f0 s d f1 p Hs Hne Hr Hps Hpd).
+    - right. intros r c0 Hp Hg. unfold o, src_dir in Hg. fold s in Hg. rewrite Haff. simpl.
+      rewrite (holds_file_none f1 s r c0 (rename_dir_src_gone f0 s d f1 r Hs Hne Hr)).
+      rewrite (holds_file_get f1 d r c0); [reflexivity|].
+      rewrite (rename_dir_carry f0 s d f1 r Hs Hne Hr). exact Hg.
+    - rewrite Haff. intros x [<-|[<-|[]]].
+      + left. rewrite <- (app_nil_r s). apply (rename_dir_src_gone f0 s d f1 [] Hs Hne Hr).
+      + right. rewrite <- (app_nil_r d). rewrite (rename_dir_carry f0 s d f1 [] Hs Hne Hr), app_nil_r. exact Hs.
+    - rewrite Haff. intros w j Hw [Es|[Ed|[]]] Hval.
+      + rewrite validates_dir, <- Es, (rename_dir_src_gone f0 s d f1 [SPF] Hs Hne Hr) in Hval. discriminate.
+      + destruct move_hist as [v0 [Hh Hv0]]. rewrite Hh.
+        exists v0. split; [|simpl; rewrite json_same_refl; reflexivity].
+        rewrite sp_value_dir, <- Ed, (rename_dir_carry f0 s d f1 [SPF] Hs Hne Hr).
+        rewrite sp_value_dir in Hv0. exact Hv0.
+  Qed.
+
+  (* the destination workspace exists (Project() created it): Job.move is a single os.replace *)
+  Theorem crash_safe_move_lemma : forall atomic g,
+    crashed (op_prog frepr atomic o) f0 g -> CInv frepr o wss f0 g.
+  Proof.
+    intros atomic g H. destruct move_src as [Hs [c [v [G [J E]]]]].
+    assert (Hdw : get f0 dws = Some Dir).
+    { destruct HW as [_ [_ [_ [_ Hv]]]]. apply (Hv dws Hdws). }
+    unfold op_prog, o, job_move, with_sp, sp_load in H.
+    apply crashed_do_inv in H; [|reflexivity]. destruct H as [->|H]; [apply cinv_move_pre|].
+    unfold exec_res in H. simpl in H.
+    replace (ws ++ [i; SPF]) with (s ++ [SPF]) in H by (unfold s; rewrite <- app_assoc; reflexivity).
+    rewrite G in H. simpl in H. rewrite J, E, str_eqb_refl in H.
+    unfold mkdir_p in H.
+    apply crashed_do_inv in H; [|reflexivity]. destruct H as [->|H]; [apply cinv_move_pre|].
+    rewrite exec_res_stat in H. simpl in H. rewrite Hdw in H. simpl in H.
+    apply crashed_do_inv in H; [|reflexivity]. destruct H as [->|H]; [apply cinv_move_pre|].
+    unfold exec_res in H. simpl in H. fold s d in H.
+    destruct (rename f0 s d) as [f1|e] eqn:Er; simpl in H.
+    - apply crashed_ret_inv in H. subst g.
+      destruct (path_eq_dec s d) as [Esd|Hne].
+      + assert (f1 = f0).
+        { unfold rename in Er. rewrite <- Esd, Hs in Er.
+          destruct (get f0 (parent s)) as [[c1|]|]; try discriminate. rewrite path_eqb_refl in Er. congruence. }
+        subst f1. apply cinv_move_pre.
+      + apply cinv_move_post; auto.
+    - assert (Hg : g = f0).
+      { destruct e; try (destruct (dest_exists_e _)); apply crashed_raise_inv in H; exact H. }
+      subst g. apply cinv_move_pre.
+  Qed.
+
+  (* ---- faults *)
+  Lemma all_payload_at_intro : forall f (a b : path),
+    (forall r c, get f0 (a ++ r) = Some (File c) -> holds_file f b r c = true) ->
+    all_payload_at f0 f a b = true.
+  Proof.
+    intros f a b H. unfold all_payload_at. apply forallb_forall. intros [p n] Hin. simpl.
+    destruct (strip a p) as [r|] eqn:Es; auto. destruct n as [c|]; auto.
+    destruct (payload_rel r); simpl; auto. apply strip_spec in Es. subst p.
+    destruct HW as [Hnd [Hnil _]].
+    assert (Hne : a ++ r <> []) by (intro E; apply Hnil; rewrite <- E; apply (in_map fst) in Hin; exact Hin).
+    apply H. apply (get_In_nodup f0 _ _ Hnd Hin Hne).
+  Qed.
+
+  Lemma move_dst_dir : dst_dir frepr o f0 = d.
+  Proof. unfold dst_dir, o. destruct move_spv as [v [Hv Hid]]. rewrite Hv, Hid. reflexivity. Qed.
+
+  Lemma post_ok_move_eq : forall f, post_ok frepr o f0 f =
+    validates frepr f dws i && all_payload_at f0 f s d && (path_eqb s d || negb (exists_ f s)).
+  Proof.
+    intro f. change (post_ok frepr o f0 f) with
+      (validates frepr f dws (last (dst_dir frepr o f0) []) && all_payload_at f0 f s (dst_dir frepr o f0)
+       && (path_eqb s (dst_dir frepr o f0) || negb (exists_ f s))).
+    rewrite move_dst_dir. unfold d at 1. rewrite last_last. reflexivity.
+  Qed.
+
+  Lemma post_ok_move_same : s = d -> post_ok frepr o f0 f0 = true.
+  Proof.
+    intros Esd. destruct move_src as [Hs [c [v [G [J E]]]]].
+    rewrite post_ok_move_eq.
+    rewrite validates_dir. fold d. rewrite <- Esd, G, J, E, str_eqb_refl. simpl.
+    rewrite all_payload_at_intro; [|intros r c0 Hg; apply holds_file_get; exact Hg].
+    rewrite path_eqb_refl. reflexivity.
+  Qed.
+
+  Lemma post_ok_move_done : forall f1, s <> d -> rename f0 s d = FOk f1 -> post_ok frepr o f0 f1 = true.
+  Proof.
+    intros f1 Hne Hr. destruct move_src as [Hs [c [v [G [J E]]]]].
+    rewrite post_ok_move_eq.
+    rewrite validates_dir. fold d. rewrite (rename_dir_carry f0 s d f1 [SPF] Hs Hne Hr), G, J, E, str_eqb_refl. simpl.
+    rewrite all_payload_at_intro.
+    - unfold exists_. rewrite <- (app_nil_r s) at 2. rewrite (rename_dir_src_gone f0 s d f1 [] Hs Hne Hr).
+      simpl. apply orb_true_r.
+    - intros r c0 Hg. apply holds_file_get. rewrite (rename_dir_carry f0 s d f1 r Hs Hne Hr). exact Hg.
+  Qed.
+
+  (* the tail of the program from the rename on: either nothing happens and an exception is raised, or the
+     move is complete *)
+  Definition move_tail : prog unit :=
+    Do (CRename s d) (fun r1 =>
+      match r1 with
+      | FOk _ => ret_res (inl tt)
+      | FErr ENOENT => ret_res (inr (PExn ERuntimeError))
+      | FErr EXDEV => ret_res (inr (PExn ERuntimeError))
+      | FErr e => if dest_exists_e e then ret_res (inr (PExn EDestinationExists)) else ret_res (inr (POs e))
+      end).
+
+  Definition move_outcome_ok (g : fs) (out : outcome unit) : Prop :=
+    CInv frepr o wss f0 g /\
+    match out with
+    | inl _ => post_ok frepr o f0 g = true          (* a normal return means the move is complete *)
+    | inr _ => g = f0                               (* an exception means nothing has changed        *)
+    end.
+
+  Lemma move_tail_run : forall plan n, let '(g, out) := run_fault plan n move_tail f0 in move_outcome_ok g out.
+  Proof.
+    intros plan n. unfold move_tail. simpl. destruct (plan n) as [e|].
+    - destruct e; simpl; (split; [apply cinv_move_pre|reflexivity]).
+    - unfold exec_res. simpl. destruct (rename f0 s d) as [f1|e] eqn:Er; simpl.
+      + destruct (path_eq_dec s d) as [Esd|Hne].
+        * destruct move_src as [Hs _].
+          assert (f1 = f0).
+          { unfold rename in Er. rewrite <- Esd, Hs in Er.
+            destruct (get f0 (parent s)) as [[c1|]|]; try discriminate. rewrite path_eqb_refl in Er. congruence. }
+          subst f1. split; [apply cinv_move_pre|apply post_ok_move_same; auto].
+        * split; [apply cinv_move_post; auto|apply post_ok_move_done; auto].
+      + destruct e; simpl; (split; [apply cinv_move_pre|reflexivity]).
+  Qed.
+
+  (* every fault plan (single, double, ... faults at any positions): the caller sees an exception and the
+     tree is untouched, or the call returns normally and the move is complete *)
+  Theorem fault_safe_move_lemma : forall plan atomic, length dws = 2%nat ->
+    let '(g, out) := run_fault plan 0 (op_prog frepr atomic o) f0 in move_outcome_ok g out.
+  Proof.
+    intros plan atomic Hlen. destruct move_src as [Hs [c [v [G [J E]]]]].
+    assert (Hdw : get f0 dws = Some Dir).
+    { destruct HW as [_ [_ [_ [_ Hv]]]]. apply (Hv dws Hdws). }
+    assert (Hraise : forall x, move_outcome_ok f0 (@inr unit perr x)) by (intro x; split; [apply cinv_move_pre|reflexivity]).
+    unfold op_prog, o, job_move, with_sp, sp_load. simpl.
+    replace (ws ++ [i; SPF]) with (s ++ [SPF]) by (unfold s; rewrite <- app_assoc; reflexivity).
+    destruct (plan 0%nat) as [e0|].
+    { destruct e0; simpl; apply Hraise. }
+    unfold exec_res. simpl. rewrite G. simpl. rewrite J, E, str_eqb_refl. fold s d.
+    change (Do (CRename s d) _) with move_tail.
+    assert (Htail : forall n, let '(g, out) := run_fault plan n move_tail f0 in move_outcome_ok g out) by (intro n; apply move_tail_run).
+    unfold mkdir_p. rewrite run_fault_do.
+    destruct (plan 1%nat) as [e1|].
+    - (* the isdir() of the workspace fails: os.makedirs runs *)
+      cbn [is_dir_r]. rewrite makedirs_p_unfold. destruct (parent_len2 dws Hlen) as [x ->]. cbv zeta. cbv iota.
+      rewrite run_fault_do. destruct (plan 2%nat) as [e2|].
+      + rewrite run_fault_do. destruct (plan 3%nat) as [e3|]; [cbn [is_dir_r]; simpl; apply Hraise|].
+        rewrite exec_res_stat, Hdw. cbn [kind_of is_dir_r]. apply (Htail 4%nat).
+      + unfold exec_res. cbn [exec lift]. unfold mkdir. rewrite Hdw. cbn [lift].
+        rewrite run_fault_do. destruct (plan 3%nat) as [e3|]; [cbn [is_dir_r]; simpl; apply Hraise|].
+        rewrite exec_res_stat, Hdw. cbn [kind_of is_dir_r]. apply (Htail 4%nat).
+    - rewrite exec_res_stat, Hdw. cbn [kind_of is_dir_r]. apply (Htail 2%nat).
+  Qed.
+End MOVE.
+
+(* ------------------------------------------------------------------ single calls, by their effect on [get] *)
+Lemma path_eqb_snoc : forall (p : path) a b, path_eqb (p ++ [a]) (p ++ [b]) = str_eqb a b.
+Proof.
+  intros p a b. destruct (str_eqb a b) eqn:E.
+  - apply str_eqb_eq in E. subst. apply path_eqb_refl.
+  - apply path_eqb_neq. intro H. apply app_inv_head in H. inversion H. apply str_eqb_neq in E. contradiction.
+Qed.
+
+Lemma path_eqb_snoc_self : forall (p : path) a, path_eqb (p ++ [a]) p = false.
+Proof.
+  intros p a. apply path_eqb_neq. intro H. rewrite <- (app_nil_r p) in H at 2. apply app_inv_head in H. discriminate.
+Qed.
+
+Lemma path_eqb_self_snoc : forall (p : path) a, path_eqb p (p ++ [a]) = false.
+Proof. intros. rewrite path_eqb_sym. apply path_eqb_snoc_self. Qed.
+
+Lemma mkdir_ok : forall f p, get f p = None -> get f (parent p) = Some Dir ->
+  exists f', exec_res f (CMkdir p) = (f', FOk RUnit) /\
+             forall q, get f' q = if path_eqb q p then Some Dir else get f q.
+Proof.
+  intros f p Hp Hpp. unfold exec_res. simpl. destruct (mkdir f p) as [f'|e] eqn:E.
+  - exists f'. split; auto. intro q. apply (get_mkdir f p f' q E).
+  - unfold mkdir in E. rewrite Hp, Hpp in E. discriminate.
+Qed.
+
+Lemma openw_ok : forall f p, get f p <> Some Dir -> get f (parent p) = Some Dir ->
+  exists f', exec_res f (COpenW p) = (f', FOk RUnit) /\
+             forall q, get f' q = if path_eqb q p then Some (File empty_content) else get f q.
+Proof.
+  intros f p Hp Hpp. unfold exec_res. simpl. destruct (write_file f p empty_content) as [f'|e] eqn:E.
+  - exists f'. split; auto. intro q. apply (get_write_file f p _ f' q E).
+  - unfold write_file in E. rewrite Hpp in E. destruct (get f p) as [[c|]|]; try discriminate. congruence.
+Qed.
+
+Lemma write_open_ok : forall f p c0 c, get f p = Some (File c0) -> get f (parent p) = Some Dir ->
+  exists f', write_open f p c = FOk f' /\
+             forall q, get f' q = if path_eqb q p then Some (File c) else get f q.
+Proof.
+  intros f p c0 c Hp Hpp. unfold write_open. rewrite Hp. destruct (write_file f p c) as [f'|e] eqn:E.
+  - exists f'. split; auto. intro q. apply (get_write_file f p _ f' q E).
+  - unfold write_file in E. rewrite Hp, Hpp in E. discriminate.
+Qed.
+
+Lemma rename_file_ok : forall f a b c, get f a = Some (File c) -> get f (parent b) = Some Dir ->
+  a <> b -> get f b <> Some Dir ->
+  exists f', exec_res f (CRename a b) = (f', FOk RUnit) /\
+             forall q, get f' q = if path_eqb q b then Some (File c) else if path_eqb q a then None else get f q.
+Proof.
+  intros f a b c Ha Hpb Hab Hb. unfold exec_res. simpl. destruct (rename f a b) as [f'|e] eqn:E.
+  - exists f'. split; auto. intro q. apply (get_rename_file f a b c f' q Ha Hab E).
+  - unfold rename in E. rewrite Ha, Hpb in E. apply path_eqb_neq in Hab. rewrite Hab in E.
+    destruct (get f b) as [[c2|]|]; try discriminate. congruence.
+Qed.
+
+(* ------------------------------------------------------------------ Job.init, every crash state *)
+Lemma tmpname_snoc' : forall tag (d : path) n, tmpname tag (d ++ [n]) = d ++ [TMPPFX ++ tag ++ n].
+Proof. intros. unfold tmpname. rewrite parent_snoc, last_last. reflexivity. Qed.
+
+Section INITRUN.
+  Variable frepr : fl -> str.
+  Variable atomic : bool.
+  Variable tag : str.
+  Variables w1 w2 : str.
+  Variable wr : path.
+  Variable sp : json.
+  Variable f : fs.
+  Let ws : path := w1 :: w2 :: wr.
+  Let i := calc_id frepr sp.
+  Let dir := ws ++ [i].
+  Let file := dir ++ [SPF].
+  Let tmp := dir ++ [TMPPFX ++ tag ++ SPF].
+  Hypothesis Hws : get f ws = Some Dir.
+  Hypothesis Hfile : get f file = None.
+  Hypothesis Htmp : get f tmp = None.
+  Hypothesis Hdir : get f dir = None \/ get f dir = Some Dir.
+
+  Definition init_st (g : fs) : Prop :=
+    (forall q, q <> dir -> q <> file -> q <> tmp -> get g q = get f q) /\
+    (get g dir = get f dir \/ get g dir = Some Dir) /\
+    (get g file = None \/ exists c, get g file = Some (File c) /\ (c_json c = None \/ c_json c = Some sp)) /\
+    (get g tmp = None \/ exists c, get g tmp = Some (File c)).
+
+  Lemma Edf : path_eqb dir file = false. Proof. apply path_eqb_self_snoc. Qed.
+  Lemma Efd : path_eqb file dir = false. Proof. apply path_eqb_snoc_self. Qed.
+  Lemma Edt : path_eqb dir tmp = false. Proof. apply path_eqb_self_snoc. Qed.
+  Lemma Etd : path_eqb tmp dir = false. Proof. apply path_eqb_snoc_self. Qed.
+  Lemma Eft : path_eqb file tmp = false. Proof. unfold file, tmp. rewrite path_eqb_snoc. reflexivity. Qed.
+  Lemma Etf : path_eqb tmp file = false. Proof. rewrite path_eqb_sym. apply Eft. Qed.
+  Lemma Hft : file <> tmp. Proof. apply path_eqb_neq. apply Eft. Qed.
+  Lemma par_file : parent file = dir. Proof. apply parent_snoc. Qed.
+  Lemma par_tmp : parent tmp = dir. Proof. apply parent_snoc. Qed.
+  Lemma par_dir : parent dir = ws. Proof. apply parent_snoc. Qed.
+
+  Lemma init_st_start : init_st f.
+  Proof. unfold init_st. rewrite Hfile, Htmp. auto. Qed.
+
+  Ltac neq q p H := assert (path_eqb q p = false) by (apply path_eqb_neq; exact H).
+
+  (* state after the directory exists *)
+  Definition stA (fA : fs) : Prop := forall q, get fA q = if path_eqb q dir then Some Dir else get f q.
+
+  Lemma init_st_A : forall fA, stA fA -> init_st fA.
+  Proof.
+    intros fA HA. unfold init_st. rewrite !HA, Efd, Etd, path_eqb_refl, Hfile, Htmp. repeat split; auto.
+    intros q H1 H2 H3. rewrite HA. apply path_eqb_neq in H1. rewrite H1. reflexivity.
+  Qed.
+
+  (* a state in which, besides the directory, the state point file and the temp file hold [cf], [ct] *)
+  Definition stX (g : fs) (cf ct : option node) : Prop :=
+    forall q, get g q = if path_eqb q file then cf else if path_eqb q tmp then ct
+                        else if path_eqb q dir then Some Dir else get f q.
+
+  Lemma init_st_X : forall g cf ct, stX g cf ct ->
+    (cf = None \/ exists c, cf = Some (File c) /\ (c_json c = None \/ c_json c = Some sp)) ->
+    (ct = None \/ exists c, ct = Some (File c)) -> init_st g.
+  Proof.
+    intros g cf ct HX Hcf Hct. unfold init_st.
+    rewrite (HX dir), (HX file), (HX tmp), Edf, Edt, !path_eqb_refl, Etf.
+    repeat split; auto.
+    intros q H1 H2 H3. rewrite HX. apply path_eqb_neq in H1, H2, H3. rewrite H1, H2, H3. reflexivity.
+  Qed.
+
+  Lemma stA_X : forall fA, stA fA -> stX fA None None.
+  Proof.
+    intros fA HA q. rewrite HA. destruct (path_eqb q file) eqn:E1.
+    - apply path_eqb_eq in E1. subst q. rewrite Efd. exact Hfile.
+    - destruct (path_eqb q tmp) eqn:E2; auto. apply path_eqb_eq in E2. subst q. rewrite Etd. exact Htmp.
+  Qed.
+
+  Definition K3 : json + perr -> prog unit := fun r3 => match r3 with inl _ => ret_res (inl tt) | inr e => ret_res (inr e) end.
+  Definition K2 : unit + perr -> prog unit :=
+    fun r2 => match r2 with inr e => ret_res (inr e) | inl _ => sp_load frepr file i K3 end.
+
+  Lemma jc_valid : c_json (jcontent frepr sp) = Some sp /\ str_eqb (calc_id frepr sp) i = true.
+  Proof. split; [reflexivity|apply str_eqb_refl]. Qed.
+
+  Lemma init_load_tail : forall g fD ct, stX fD (Some (File (jcontent frepr sp))) ct ->
+    crashed (sp_load frepr file i K3) fD g -> g = fD.
+  Proof.
+    intros g fD ct HX H. unfold sp_load in H.
+    apply crashed_do_inv in H; [|reflexivity]. destruct H as [->|H]; auto.
+    assert (Hg : get fD file = Some (File (jcontent frepr sp))) by (rewrite (HX file), path_eqb_refl; reflexivity).
+    assert (E : exec_res fD (CRead file) = (fD, FOk (RData (jcontent frepr sp)))).
+    { unfold exec_res. cbn [exec]. rewrite Hg. reflexivity. }
+    rewrite E in H. cbn [fst snd] in H. cbn [jcontent c_json] in H. fold i in H. rewrite str_eqb_refl in H.
+    apply crashed_ret_inv in H. exact H.
+  Qed.
+
+  Lemma init_save_states : forall force fA g, stA fA ->
+    crashed (sp_save frepr atomic tag file sp force K2) fA g -> init_st g.
+  Proof.
+    intros force fA g HA H. pose proof (stA_X fA HA) as HXA.
+    assert (HdirA : get fA dir = Some Dir) by (rewrite HA, path_eqb_refl; reflexivity).
+    assert (Hjs : crashed (json_save frepr tag atomic file sp
+               (fun r => match r with
+                         | FOk _ => K2 (inl tt)
+                         | FErr e => if errno_eqb e EEXIST || errno_eqb e EACCES then K2 (inl tt)
+                                     else Do (CUnlink file) (fun _ => K2 (inr (POs e)))
+                         end)) fA g -> init_st g).
+    { clear H. intro H. unfold json_save in H. destruct atomic.
+      - (* temp file + rename *)
+        assert (Etmp : tmpname tag file = tmp) by (unfold file; rewrite tmpname_snoc'; reflexivity).
+        rewrite !Etmp in H.
+        apply crashed_do_inv in H; [|reflexivity]. destruct H as [->|H]; [apply init_st_A; auto|].
+        destruct (openw_ok fA tmp) as [fB [EB HB]].
+        { rewrite (HXA tmp), Etf, path_eqb_refl. discriminate. }
+        { rewrite par_tmp. exact HdirA. }
+        rewrite EB in H. cbn [fst snd] in H.
+        assert (HXB : stX fB None (Some (File empty_content))).
+        { intro q. rewrite HB, (HXA q). destruct (path_eqb q tmp) eqn:E; auto.
+          apply path_eqb_eq in E. subst q. rewrite Etf. reflexivity. }
+        assert (HdirB : get fB dir = Some Dir) by (rewrite (HXB dir), Edf, Edt, path_eqb_refl; reflexivity).
+        assert (HtmpB : get fB tmp = Some (File empty_content)) by (rewrite (HXB tmp), Etf, path_eqb_refl; reflexivity).
+        assert (HpB : get fB (parent tmp) = Some Dir) by (rewrite par_tmp; exact HdirB).
+        apply crashed_write_inv in H. destruct H as [->|[[n [f' [Hn [Hw ->]]]]|H]].
+        + apply (init_st_X _ _ _ HXB); [auto|right; eauto].
+        + destruct (write_open_ok fB tmp _ (torn_content (jcontent frepr sp) n) HtmpB HpB) as [fT [ET HT]].
+          rewrite ET in Hw. injection Hw as <-.
+          assert (HXT : stX fT None (Some (File (torn_content (jcontent frepr sp) n)))).
+          { intro q. rewrite HT, (HXB q). destruct (path_eqb q tmp) eqn:E; auto.
+            apply path_eqb_eq in E. subst q. rewrite Etf. reflexivity. }
+          apply (init_st_X _ _ _ HXT); [auto|right; eauto].
+        + destruct (write_open_ok fB tmp _ (jcontent frepr sp) HtmpB HpB) as [fC [EC HC]].
+          unfold exec_res in H. cbn [exec] in H. rewrite EC in H. cbn [lift fst snd] in H.
+          assert (HXC : stX fC None (Some (File (jcontent frepr sp)))).
+          { intro q. rewrite HC, (HXB q). destruct (path_eqb q tmp) eqn:E; auto.
+            apply path_eqb_eq in E. subst q. rewrite Etf. reflexivity. }
+          apply crashed_do_inv in H; [|reflexivity]. destruct H as [->|H]; [apply (init_st_X _ _ _ HXC); [auto|right; eauto]|].
+          cbn [exec_res exec fst snd] in H.
+          apply crashed_do_inv in H; [|reflexivity]. destruct H as [->|H]; [apply (init_st_X _ _ _ HXC); [auto|right; eauto]|].
+          destruct (rename_file_ok fC tmp file (jcontent frepr sp)) as [fD [ED HD]].
+          { rewrite (HXC tmp), Etf, path_eqb_refl. reflexivity. }
+          { rewrite par_file, (HXC dir), Edf, Edt, path_eqb_refl. reflexivity. }
+          { apply not_eq_sym. apply Hft. }
+          { rewrite (HXC file), path_eqb_refl. discriminate. }
+          rewrite ED in H. cbn [fst snd] in H.
+          assert (HXD : stX fD (Some (File (jcontent frepr sp))) None).
+          { intro q. rewrite HD, (HXC q). destruct (path_eqb q file); auto. destruct (path_eqb q tmp); auto. }
+          apply (init_load_tail g fD None HXD) in H. subst g.
+          apply (init_st_X _ _ _ HXD); [right; exists (jcontent frepr sp); split; auto|auto].
+      - (* in place *)
+        apply crashed_do_inv in H; [|reflexivity]. destruct H as [->|H]; [apply init_st_A; auto|].
+        destruct (openw_ok fA file) as [fB [EB HB]].
+        { rewrite (HXA file), path_eqb_refl. discriminate. }
+        { rewrite par_file. exact HdirA. }
+        rewrite EB in H. cbn [fst snd] in H.
+        assert (HXB : stX fB (Some (File empty_content)) None).
+        { intro q. rewrite HB, (HXA q). destruct (path_eqb q file) eqn:E; auto. }
+        assert (HdirB : get fB dir = Some Dir) by (rewrite (HXB dir), Edf, Edt, path_eqb_refl; reflexivity).
+        assert (HfB : get fB file = Some (File empty_content)) by (rewrite (HXB file), path_eqb_refl; reflexivity).
+        assert (HpB : get fB (parent file) = Some Dir) by (rewrite par_file; exact HdirB).
+        apply crashed_write_inv in H. destruct H as [->|[[n [f' [Hn [Hw ->]]]]|H]].
+        + apply (init_st_X _ _ _ HXB); [right; exists empty_content; split; auto|auto].
+        + destruct (write_open_ok fB file _ (torn_content (jcontent frepr sp) n) HfB HpB) as [fT [ET HT]].
+          rewrite ET in Hw. injection Hw as <-.
+          assert (HXT : stX fT (Some (File (torn_content (jcontent frepr sp) n))) None).
+          { intro q. rewrite HT, (HXB q). destruct (path_eqb q file) eqn:E; auto. }
+          apply (init_st_X _ _ _ HXT); [right; eexists; split; [reflexivity|left; reflexivity]|auto].
+        + destruct (write_open_ok fB file _ (jcontent frepr sp) HfB HpB) as [fC [EC HC]].
+          unfold exec_res in H. cbn [exec] in H. rewrite EC in H. cbn [lift fst snd] in H.
+          assert (HXC : stX fC (Some (File (jcontent frepr sp))) None).
+          { intro q. rewrite HC, (HXB q). destruct (path_eqb q file) eqn:E; auto. }
+          apply crashed_do_inv in H; [|reflexivity]. destruct H as [->|H];
+            [apply (init_st_X _ _ _ HXC); [right; exists (jcontent frepr sp); split; auto|auto]|].
+          cbn [exec_res exec fst snd] in H.
+          apply (init_load_tail g fC None HXC) in H. subst g.
+          apply (init_st_X _ _ _ HXC); [right; exists (jcontent frepr sp); split; auto|auto]. }
+    unfold sp_save in H. destruct force.
+    - apply Hjs. exact H.
+    - apply crashed_do_inv in H; [|reflexivity]. destruct H as [->|H]; [apply init_st_A; auto|].
+      rewrite exec_res_stat in H. cbn [fst snd] in H. rewrite (HXA file), path_eqb_refl in H. cbn [kind_of is_file_r] in H.
+      apply Hjs. exact H.
+  Qed.
+
+  Theorem init_crash_states : forall force g,
+    crashed (job_init frepr atomic tag ws sp force ret_res) f g -> init_st g.
+  Proof.
+    intros force g H. unfold job_init, sp_load in H. cbv zeta in H. fold i dir file in H.
+    apply crashed_do_inv in H; [|reflexivity]. destruct H as [->|H]; [apply init_st_start|].
+    assert (E0 : exec_res f (CRead file) = (f, FErr ENOENT)) by (unfold exec_res; cbn [exec]; rewrite Hfile; reflexivity).
+    rewrite E0 in H. cbn [fst snd] in H. unfold mkdir_p in H.
+    apply crashed_do_inv in H; [|reflexivity]. destruct H as [->|H]; [apply init_st_start|].
+    rewrite exec_res_stat in H. cbn [fst snd] in H.
+    change (fun r2 : unit + perr => match r2 with inl _ => sp_load frepr file i (fun r3 => match r3 with inl _ => ret_res (inl tt) | inr e => ret_res (inr e) end) | inr e => ret_res (inr e) end) with K2 in H.
+    destruct Hdir as [Hd|Hd]; rewrite Hd in H; cbn [kind_of is_dir_r] in H.
+    - rewrite makedirs_p_unfold, par_dir in H. unfold ws in H at 1. cbv zeta iota in H. fold ws in H.
+      apply crashed_do_inv in H; [|reflexivity]. destruct H as [->|H]; [apply init_st_start|].
+      rewrite exec_res_stat, Hws in H. cbn [fst snd kind_of exists_r] in H.
+      apply crashed_do_inv in H; [|reflexivity]. destruct H as [->|H]; [apply init_st_start|].
+      destruct (mkdir_ok f dir Hd) as [fA [EA HA]]; [rewrite par_dir; exact Hws|].
+      rewrite EA in H. cbn [fst snd] in H.
+      apply (init_save_states force fA g HA H).
+    - assert (HA : stA f).
+      { intro q. destruct (path_eqb q dir) eqn:E; auto. apply path_eqb_eq in E. subst q. exact Hd. }
+      apply (init_save_states force f g HA H).
+  Qed.
+End INITRUN.
+
+
+(* ------------------------------------------------------------------ crash_safe_init *)
+Lemma closed_absent : forall f (d : path),
+  (forall p, get f p <> None -> get f (parent p) = Some Dir) -> get f d = None ->
+  forall r, get f (d ++ r) = None.
+Proof.
+  intros f d Hcl Hd r. induction r as [|x r IH] using rev_ind.
+  - rewrite app_nil_r. exact Hd.
+  - destruct (get f (d ++ r ++ [x])) eqn:E; auto.
+    assert (Hne : get f (d ++ r ++ [x]) <> None) by congruence.
+    apply Hcl in Hne. rewrite app_assoc, parent_snoc in Hne. congruence.
+Qed.
+
+Lemma id_match_calc_id : forall frepr v, id_match (calc_id frepr v) = true.
+Proof.
+  intros frepr v. destruct (calc_id_shape frepr v) as [Hl Hh]. unfold id_match. rewrite Hl.
+  replace (firstn 32 (calc_id frepr v)) with (calc_id frepr v); [rewrite Hh; reflexivity|].
+  symmetry. rewrite <- Hl. apply firstn_all.
+Qed.
+
+Section INIT.
+  Variable frepr : fl -> str.
+  Variable wss : list path.
+  Variable f0 : fs.
+  Variables w1 w2 : str.
+  Variable wr : path.
+  Variable sp : json.
+  Variable force : bool.
+  Let ws : path := w1 :: w2 :: wr.
+  Hypothesis HW : WInv frepr wss f0.
+  Hypothesis Hws : In ws wss.
+  Let o := KInit ws sp force.
+  Let i := calc_id frepr sp.
+  Let dir := ws ++ [i].
+
+  Lemma init_aff : affected frepr o f0 = [dir].
+  Proof. reflexivity. Qed.
+
+  Lemma init_form : forall x, In x (affected frepr o f0) -> exists w j, In w wss /\ x = w ++ [j].
+  Proof. intros x [<-|[]]. exists ws, i. auto. Qed.
+
+  Lemma init_ws_dir : get f0 ws = Some Dir.
+  Proof. destruct HW as [_ [_ [_ [_ Hv]]]]. apply (Hv ws Hws). Qed.
+
+  (* the job exists: it validates, and init returns at once *)
+  Lemma cinv_init_existing : In i (job_dirs f0 ws) -> CInv frepr o wss f0 f0.
+  Proof.
+    intro Hi. destruct (winv_job frepr wss f0 ws i HW Hws Hi) as [Hd [c [v [G [J E]]]]]. fold dir in Hd, G.
+    apply cinv_intro; auto.
+    - apply init_form.
+    - right. intros r c0 Hp Hg. rewrite init_aff. simpl. unfold o, src_dir in Hg. fold i dir in Hg.
+      rewrite (holds_file_get _ _ _ _ Hg). reflexivity.
+    - intros x [<-|[]]. right. exact Hd.
+    - intros w j Hw [Ed|[]] Hval. change (src_dir frepr o) with dir in Ed.
+      destruct (validates_sp_value _ _ _ _ Hval) as [v1 [Hv1 _]]. exists v1. split; auto.
+      unfold history, o. fold i.
+      assert (Hs0 : sp_value f0 ws i = Some v1).
+      { rewrite sp_value_dir. rewrite sp_value_dir in Hv1. change (ws ++ [i]) with dir. rewrite Ed. exact Hv1. }
+      rewrite Hs0. simpl. rewrite json_same_refl. apply orb_true_r.
+  Qed.
+
+  Lemma cinv_init_st : forall g, get f0 dir = None ->
+    init_st frepr [] w1 w2 wr sp f0 g -> CInv frepr o wss f0 g.
+  Proof.
+    intros g Hd [Hout [Hdir [Hfile Htmp]]]. fold ws i dir in Hout, Hdir, Hfile, Htmp.
+    destruct HW as [Hnd [Hnil [Hcl _]]].
+    apply cinv_intro; auto.
+    - apply init_form.
+    - rewrite init_aff. intros p Hp. apply under_any_false_cons in Hp. destruct Hp as [Hp _].
+      apply Hout; intro E; subst p; [rewrite under_refl in Hp|rewrite under_app in Hp|rewrite under_app in Hp]; discriminate.
+    - right. intros r c0 Hp Hg. unfold o, src_dir in Hg. fold i dir in Hg.
+      rewrite (closed_absent f0 dir Hcl Hd r) in Hg. discriminate.
+    - intros x [<-|[]]. rewrite Hd in Hdir. destruct Hdir; auto.
+    - intros w j Hw [Ed|[]] Hval. change (src_dir frepr o) with dir in Ed.
+      rewrite validates_dir, <- Ed in Hval. rewrite sp_value_dir, <- Ed.
+      destruct Hfile as [Hn|[c [Hc Hj]]]; [rewrite Hn in Hval; discriminate|].
+      rewrite Hc in *. destruct Hj as [Hj|Hj]; rewrite Hj in *; [discriminate|].
+      exists sp. split; auto. unfold history, o. simpl. rewrite json_same_refl. reflexivity.
+  Qed.
+
+  Theorem crash_safe_init_lemma : forall atomic g,
+    crashed (op_prog frepr atomic o) f0 g -> CInv frepr o wss f0 g.
+  Proof.
+    intros atomic g H. destruct HW as [Hnd [Hnil [Hcl [Hlen Hv]]]].
+    destruct (get f0 dir) as [n|] eqn:Gd.
+    - (* the directory exists: it is a listed, valid job *)
+      assert (Hi : In i (job_dirs f0 ws)).
+      { apply job_dirs_In. split; [apply init_ws_dir|]. split; [fold dir; congruence|apply id_match_calc_id]. }
+      destruct (winv_job frepr wss f0 ws i HW Hws Hi) as [Hd [c [v [G [J E]]]]]. fold dir in Hd, G.
+      unfold op_prog, o, job_init, sp_load in H. cbv zeta in H. fold i dir in H.
+      apply crashed_do_inv in H; [|reflexivity]. destruct H as [->|H]; [apply cinv_init_existing; auto|].
+      assert (E0 : exec_res f0 (CRead (dir ++ [SPF])) = (f0, FOk (RData c))) by (unfold exec_res; cbn [exec]; rewrite G; reflexivity).
+      rewrite E0 in H. cbn [fst snd] in H. rewrite J, E, str_eqb_refl in H.
+      apply crashed_ret_inv in H. subst g. apply cinv_init_existing; auto.
+    - apply (cinv_init_st g Gd).
+      apply (init_crash_states frepr atomic [] w1 w2 wr sp f0) with (force := force).
+      + apply init_ws_dir.
+      + apply (closed_absent f0 dir Hcl Gd [SPF]).
+      + apply (closed_absent f0 dir Hcl Gd [TMPPFX ++ [] ++ SPF]).
+      + left. exact Gd.
+      + exact H.
+  Qed.
+End INIT.
+
+(* ------------------------------------------------------------------ the re-key protocol *)
+Lemma under_sibling_deep : forall (p : path) a b r, a <> b -> under (p ++ [a]) (p ++ b :: r) = false.
+Proof. intros. apply sibling_not_under_deep. auto. Qed.
+
+Lemma strip_sibling : forall (p : path) a b r, a <> b -> strip (p ++ [a]) (p ++ b :: r) = None.
+Proof.
+  intros p a b r H. destruct (strip (p ++ [a]) (p ++ b :: r)) eqn:E; auto.
+  assert (U : under (p ++ [a]) (p ++ b :: r) = true) by (unfold under; rewrite E; reflexivity).
+  rewrite sibling_not_under_deep in U by auto. discriminate.
+Qed.
+
+Section REKEY.
+  Variable frepr : fl -> str.
+  Variable wss : list path.
+  Variable f0 : fs.
+  Variables w1 w2 : str.
+  Variable wr : path.
+  Variable old : str.
+  Variable nsp : json.
+  Let ws : path := w1 :: w2 :: wr.
+  Hypothesis HW : WInv frepr wss f0.
+  Hypothesis Hws : In ws wss.
+  Hypothesis Hold : In old (job_dirs f0 ws).
+  Let o := KRekey ws old nsp.
+  Let new := calc_id frepr nsp.
+  Let odir := ws ++ [old].
+  Let ndir := ws ++ [new].
+  Let fname := odir ++ [SPF].
+  Let bak := odir ++ [SPT].
+  Hypothesis Hne : old <> new.
+  (* no stale temp file of an interrupted earlier write in the job directory *)
+  Hypothesis Hnotmp : get f0 (odir ++ [TMPPFX ++ [] ++ SPF]) = None.
+
+  Lemma rk_src : get f0 odir = Some Dir /\
+    exists c v, get f0 fname = Some (File c) /\ c_json c = Some v /\ calc_id frepr v = old.
+  Proof. apply (winv_job frepr wss); auto. Qed.
+
+  Lemma rk_ws : get f0 ws = Some Dir.
+  Proof. destruct HW as [_ [_ [_ [_ Hv]]]]. apply (Hv ws Hws). Qed.
+
+  Definition occupied : bool := has_children f0 ndir || isfile f0 ndir.
+
+  Lemma rk_dirs_ne : odir <> ndir.
+  Proof. intro E. apply app_inv_head in E. inversion E. contradiction. Qed.
+
+  Lemma rk_aff : affected frepr o f0 = if occupied then [odir] else [odir; ndir].
+  Proof.
+    unfold affected, o, src_dir, dst_dir. fold new odir ndir. unfold occupied.
+    assert (E : path_eqb odir ndir = false) by (apply path_eqb_neq; apply rk_dirs_ne). rewrite E. reflexivity.
+  Qed.
+
+  Lemma rk_form : forall x, In x (affected frepr o f0) -> exists w j, In w wss /\ x = w ++ [j].
+  Proof.
+    intros x Hx. rewrite rk_aff in Hx. destruct occupied; simpl in Hx.
+    - destruct Hx as [<-|[]]. exists ws, old. auto.
+    - destruct Hx as [<-|[<-|[]]]; [exists ws, old|exists ws, new]; auto.
+  Qed.
+
+  Lemma rk_hist : exists v0, history frepr o f0 = [nsp; v0] /\ sp_value f0 ws old = Some v0.
+  Proof.
+    destruct rk_src as [_ [c [v [G [J E]]]]]. exists v. unfold history, o.
+    assert (Hs : sp_value f0 ws old = Some v) by (rewrite sp_value_dir; fold odir fname; rewrite G; exact J).
+    rewrite Hs. auto.
+  Qed.
+
+  (* free destination: nothing below it *)
+  Lemma rk_free : occupied = false -> (get f0 ndir = None \/ get f0 ndir = Some Dir) /\ forall x r, get f0 (ndir ++ x :: r) = None.
+  Proof.
+    unfold occupied. intro H. apply orb_false_iff in H. destruct H as [Hc Hf]. split.
+    - unfold isfile in Hf. destruct (get f0 ndir) as [[c|]|]; auto. discriminate.
+    - intros x r. rewrite get_app_cons. apply has_children_false. exact Hc.
+  Qed.
+
+  (* generic CInv introduction for states in which only the two job directories differ from the pre-state *)
+  Lemma rk_cinv : forall g,
+    (forall p, under odir p = false -> under ndir p = false -> get g p = get f0 p) ->
+    (occupied = true -> forall p, under ndir p = true -> get g p = get f0 p) ->
+    (forall r c, payload_rel r = true -> get f0 (odir ++ r) = Some (File c) ->
+       (get g (odir ++ r) = Some (File c) /\ (occupied = false -> get g (ndir ++ r) = None)) \/
+       (occupied = false /\ get g (odir ++ r) = None /\ get g (ndir ++ r) = Some (File c))) ->
+    (get g odir = None \/ get g odir = Some Dir) ->
+    (occupied = false -> get g ndir = None \/ get g ndir = Some Dir) ->
+    (forall c, get g fname = Some (File c) -> forall v, c_json c = Some v -> sp_value f0 ws old = Some v) ->
+    (occupied = false -> forall c, get g (ndir ++ [SPF]) = Some (File c) -> forall v, c_json c = Some v -> v = nsp) ->
+    CInv frepr o wss f0 g.
+  Proof.
+    intros g Hout Hocc Hpay Hod Hnd Hosp Hnsp.
+    apply cinv_intro; auto.
+    - apply rk_form.
+    - rewrite rk_aff. intros p Hp. destruct occupied eqn:Eo.
+      + apply under_any_false_cons in Hp. destruct Hp as [Hp _].
+        destruct (under ndir p) eqn:En; [apply Hocc; auto|apply Hout; auto].
+      + apply under_any_false_cons in Hp. destruct Hp as [Hp1 Hp]. apply under_any_false_cons in Hp. destruct Hp as [Hp2 _].
+        apply Hout; auto.
+    - right. intros r c Hp Hg. unfold o, src_dir in Hg. fold odir in Hg. rewrite rk_aff.
+      destruct (Hpay r c Hp Hg) as [[H1 H2]|[Eo [H1 H2]]].
+      + destruct occupied eqn:Eo; simpl; rewrite (holds_file_get _ _ _ _ H1); auto.
+        rewrite (holds_file_none _ _ _ _ (H2 eq_refl)). reflexivity.
+      + rewrite Eo. simpl. rewrite (holds_file_none _ _ _ _ H1), (holds_file_get _ _ _ _ H2). reflexivity.
+    - rewrite rk_aff. intros x Hx. destruct occupied eqn:Eo; simpl in Hx.
+      + destruct Hx as [<-|[]]. exact Hod.
+      + destruct Hx as [<-|[<-|[]]]; auto.
+    - rewrite rk_aff. intros w j Hw Hin Hval.
+      destruct rk_hist as [v0 [Hh Hv0]]. rewrite Hh.
+      destruct (validates_sp_value _ _ _ _ Hval) as [v1 [Hv1 _]]. exists v1. split; auto.
+      rewrite sp_value_dir in Hv1.
+      assert (Hcase : w ++ [j] = odir \/ (occupied = false /\ w ++ [j] = ndir)).
+      { destruct occupied; simpl in Hin; intuition. }
+      destruct Hcase as [E|[Eo E]]; rewrite E in Hv1.
+      + fold fname in Hv1. destruct (get g fname) as [[c|]|] eqn:G; try discriminate.
+        rewrite (Hosp c eq_refl v1 Hv1) in Hv0. injection Hv0 as <-. simpl. rewrite json_same_refl. apply orb_true_iff. right. reflexivity.
+      + destruct (get g (ndir ++ [SPF])) as [[c|]|] eqn:G; try discriminate.
+        rewrite (Hnsp Eo c eq_refl v1 Hv1). simpl. rewrite json_same_refl. reflexivity.
+  Qed.
+End REKEY.
